@@ -351,9 +351,7 @@ def dim_class(cache: str, dim: str) -> str:
 
 # dimension classes recorded as OPEN findings (listed last when a minimal history needs several dimensions, so that a
 # new dimension is never hidden behind a recorded one)
-OPEN_CLASSES = {"t2": ["node_label", "state", "hybrid", "leaf:t2.quality.normalizer.enabled"],
-                "turn": ["agent", "t1_labels", "node_label", "config", "memory_add", "now"],
-                "t1": []}
+OPEN_CLASSES: Dict[str, List[str]] = {"t2": [], "turn": [], "t1": []}     # every recorded finding has been repaired
 
 
 NEUTRAL = ("kill", "clock")      # never the stale dimension themselves: they only decide whether a cache is consulted
